@@ -46,6 +46,10 @@ type Doc struct {
 	Root  *Node
 	Nodes []*Node // document order
 	HasNS bool    // navigators expose NamespaceURL()
+	// DataAsName: LocalName() of a text or comment node returns its character data, as the navigators of
+	// xmlquery and htmlquery do (there the "name" of a text node is its data). A name test must still select
+	// only nodes of the principal node type of its axis.
+	DataAsName bool
 }
 
 func NewDoc() *Doc {
@@ -322,7 +326,13 @@ func (n *Nav) NodeType() xpath.NodeType {
 	}
 	panic("xdoc: bad kind")
 }
-func (n *Nav) LocalName() string { n.R.tick(); return n.Cur.Name }
+func (n *Nav) LocalName() string {
+	n.R.tick()
+	if n.D.DataAsName && (n.Cur.Kind == Text || n.Cur.Kind == Comment) {
+		return n.Cur.Data
+	}
+	return n.Cur.Name
+}
 func (n *Nav) Prefix() string    { n.R.tick(); return n.Cur.Prefix }
 func (n *Nav) Value() string     { n.R.tick(); return n.Cur.StringValue() }
 func (n *Nav) Copy() xpath.NodeNavigator {
